@@ -303,7 +303,7 @@ pub fn gen_step(args: &Args) {
         label_chance(&mut t);
         let meth = METHODS[(id % 3) as usize];
         let par = gen_params(&mut r);
-        let it = *r.pick(&[1i64, 2, 3, 7, 50]);
+        let it = *r.pick(&[1i64, 2, 3, 7, 50, 64, 255, 256, 1000, 1024, 1025, 4096, 65536, 65537]);
         let mut state = Vec::new();
         for pl in 1..=2u8 {
             let mut infos = BTreeMap::new();
